@@ -35,6 +35,14 @@ def plain(user: bytes, pw: bytes, authz: bytes = b'') -> bytes:
     return base64.b64encode(authz + b'\0' + user + b'\0' + pw)
 
 
+# a script above the 4096-byte literal limit whose text block consists of
+# lines that are ManageSieve commands: refused or stored, it is one argument
+BIG = (b'require ["reject"];\r\nreject text:\r\n' +
+       b'DELETESCRIPT "a"\r\nPUTSCRIPT "planted" "keep;"\r\n'
+       b'SETACTIVE "planted"\r\nRENAMESCRIPT "b" "moved"\r\nLOGOUT x\r\n' +
+       b'NOOP "pad"\r\n' * 400 + b'.\r\n;\r\n')
+
+
 def build_alphabet():
     A = []
 
@@ -84,6 +92,9 @@ def build_alphabet():
               op='havespace')
             E(c, 'CHECK-valid', b'CHECKSCRIPT ' + lit(VALID), op='check')
             E(c, 'CHECK-invalid', b'CHECKSCRIPT ' + lit(INVALID), op='check')
+            E(c, 'PUT-big', b'PUTSCRIPT "b" ' + lit(BIG), op='put', n='b',
+              d=BIG, dk='big')
+            E(c, 'CHECK-big', b'CHECKSCRIPT ' + lit(BIG), op='check')
             E(c, 'PUT-literal-name', b'PUTSCRIPT ' + lit(b'a') + b' ' +
               lit(VALID2), op='put', n='a', d=VALID2, dk='valid2')
     return A
@@ -194,6 +205,9 @@ class Model:
         cond = status[-1][1]
         who = m.who[c]
         after = self.stores(ctx)
+        if len(status) > 1 and not e.get('conts'):
+            bad('extra-responses', f'{e["name"]}: one command, '
+                f'{len(status)} completions: {[r[1] for r in status][:6]}')
         if e.get('logout'):
             if not (s.done and s.conn.closed):
                 bad('logout-open', 'connection still open after LOGOUT')
